@@ -1,6 +1,6 @@
 """C08 — Pedersen commitments are the stated group elements and tally exactly; generator derivation; commitment / generator encodings."""
 import ctypes
-from ctypes import c_size_t, c_uint64, c_void_p, byref
+from ctypes import c_size_t, c_uint64, c_void_p
 
 from hypothesis import strategies as st
 
@@ -152,8 +152,10 @@ def make_generator(env, spec, check=True):
 # ------------------------------------------------------------------ strategies
 seed32 = st.one_of(gens.hexbytes(32), st.sampled_from([bytes(32).hex(), (b"\xff" * 32).hex(), (b"\x01" * 32).hex()]))
 blind_valid = st.one_of(st.sampled_from([0, 1, 2, N - 1, N - 2, (N - 1) // 2]), gens.u256_edge.map(lambda v: v % N), st.integers(0, N - 1))
-blind_any = st.one_of(gens.u256_edge, st.sampled_from([0, 1, N - 1, N, N + 1, gens.M256]), st.integers(N, gens.M256), st.integers(0, N - 1))
-value_st = st.one_of(gens.u64_edge, st.sampled_from([0, 1, 1 << 63, U64]), st.integers(0, 20))
+blind_big = st.one_of(st.sampled_from([N, N + 1, N + 2, P - 1, P, gens.M256, gens.M256 - 1, 1 << 255]), st.integers(N, gens.M256),
+                      gens.u256_edge.filter(lambda x: x >= N))
+value_st = st.one_of(gens.u64_edge, st.sampled_from([0, 1, 2, (1 << 63) - 1, 1 << 63, (1 << 63) + 1, U64 - 1, U64, 1 << 32, 10 ** 18]), st.integers(1, 20),
+                     st.integers(1, U64), st.integers(1 << 62, U64), st.sampled_from([0, 1 << 63, U64]))
 
 
 @st.composite
@@ -164,7 +166,7 @@ def gen_spec(draw, allow_refused=True, kinds=("h", "seed", "blinded", "parsed_mu
     if k == "seed":
         return {"k": "seed", "seed": draw(seed32)}
     if k == "blinded":
-        return {"k": "blinded", "seed": draw(seed32), "r": draw(blind_any if allow_refused else blind_valid)}
+        return {"k": "blinded", "seed": draw(seed32), "r": draw(st.one_of(blind_valid, blind_valid, blind_valid, blind_big) if allow_refused else blind_valid)}
     if k == "parsed_mul":
         return {"k": "parsed_mul", "m": draw(st.one_of(st.integers(1, 50), gens.seckey_valid)), "neg": draw(st.booleans())}
     return {"k": "parsed_x", "x": draw(st.integers(0, 1 << 16)), "flag": draw(st.integers(0, 1))}
@@ -172,13 +174,16 @@ def gen_spec(draw, allow_refused=True, kinds=("h", "seed", "blinded", "parsed_mu
 
 @st.composite
 def commit_case(draw):
-    g = draw(gen_spec())
+    mode = draw(st.sampled_from(["ok", "ok", "ok", "ok", "b_big", "cancel", "zero"]))
     v = draw(value_st)
-    b = draw(blind_any)
-    if g["k"] == "parsed_mul" and draw(st.integers(0, 2)) == 0:
-        b = "cancel"            # b = -v*k: the commitment point is infinity
-    elif draw(st.integers(0, 15)) == 0:
-        b, v = 0, 0
+    if mode == "cancel":
+        g = draw(gen_spec(kinds=("parsed_mul",)))
+        b = "cancel"            # b = -v*k for the generator k*G: the commitment point is infinity
+    else:
+        g = draw(gen_spec())
+        b = draw(blind_big if mode == "b_big" else blind_valid)
+        if mode == "zero":
+            b, v = 0, 0
     return {"gen": g, "b": b, "v": v}
 
 
@@ -236,14 +241,21 @@ def run_commit(env, case):
 # ---- blind sums
 @st.composite
 def blindsum_case(draw):
-    if draw(st.booleans()):
+    """mostly valid lists; in about 40 % of the cases ONE position carries a scalar >= n (so that a dropped range check is visible at every position)"""
+    kind = draw(st.sampled_from(["sum", "bgbs"]))
+    bad = draw(st.sampled_from([False, False, False, True, True]))
+    if kind == "sum":
         n = draw(st.one_of(st.integers(0, 6), st.integers(0, 33)))
-        bl = [draw(st.one_of(blind_valid, blind_valid, blind_valid, blind_any)) for _ in range(n)]
+        bl = [draw(blind_valid) for _ in range(n)]
+        if bad and n:
+            bl[draw(st.integers(0, n - 1))] = draw(blind_big)
         return {"kind": "sum", "blinds": bl, "npos": draw(st.integers(0, n))}
     n = draw(st.one_of(st.integers(1, 5), st.integers(1, 33)))
-    sc = st.one_of(blind_valid, blind_valid, blind_valid, blind_valid, blind_any)
-    return {"kind": "bgbs", "vals": [draw(value_st) for _ in range(n)], "rs": [draw(sc) for _ in range(n)], "rps": [draw(sc) for _ in range(n)],
+    case = {"kind": "bgbs", "vals": [draw(value_st) for _ in range(n)], "rs": [draw(blind_valid) for _ in range(n)], "rps": [draw(blind_valid) for _ in range(n)],
             "nin": draw(st.integers(0, n - 1))}
+    if bad:
+        case[draw(st.sampled_from(["rs", "rps"]))][draw(st.sampled_from([0, n - 1, draw(st.integers(0, n - 1))]))] = draw(blind_big)
+    return case
 
 
 def run_blindsum(env, case):
@@ -389,7 +401,6 @@ def run_tally(env, case):
         keyf = lambda e: case["assets"][e["g"]]
     pos, neg = (balance_entries(case, keyf) if case["balance"] else (list(case["pos"]), list(case["neg"])))
     pos, neg = pos[:32], neg[:32]
-    balanced = case["balance"] and len(pos) <= 32 and len(neg) <= 32
     # re-check the balance after truncation (ground truth for the construction-based expectation)
     tot = {}
     for lst, sg in ((pos, 1), (neg, -1)):
@@ -488,12 +499,12 @@ BOUNDARY_X = sorted(set(
 
 
 def grid_xs(tier):
-    small, nk, nh = (120, 150, 300) if tier == "quick" else (2500, 1500, 8000)
+    small, nk, nh = (1500, 800, 2500) if tier == "quick" else (20000, 8000, 40000)
     out = [("boundary", x, None) for x in BOUNDARY_X]
     out += [("small", x, None) for x in range(8, small)]
     # tiny on-curve x re-encoded as x + p (fits in 32 bytes only for x < 2^32 + 977): must be rejected
     cnt, x = 0, 0
-    while cnt < (40 if tier == "quick" else 400):
+    while cnt < (150 if tier == "quick" else 1500):
         x = small_curve_x(x)
         out.append(("x_plus_p", x + P, None))
         x += 1
@@ -571,14 +582,14 @@ def run_grid(env, case):
 
 _CFG = {"quick": ["prod", "vsan"], "thorough": ["prod", "vsan"]}
 TESTS = [
-    Test("commit", commit_case, run_commit, quick=3000, thorough=100000, cfgs=_CFG,
+    Test("commit", commit_case, run_commit, quick=3000, thorough=60000, cfgs=_CFG, max_workers=6,
          must_cover=["gen:h", "gen:seed", "gen:blinded", "gen:blinded_refused", "gen:parsed_mul", "gen:parsed_x", "b>=n", "b=0", "b=n-1", "v=0", "v=2^63", "v=2^64-1",
                      "cancel", "refused_inf", "refused_b", "ok", "tweak_add_equiv"]),
-    Test("blind_sums", blindsum_case, run_blindsum, quick=3000, thorough=60000, cfgs=_CFG,
+    Test("blind_sums", blindsum_case, run_blindsum, quick=2400, thorough=40000, cfgs=_CFG, max_workers=6,
          must_cover=["sum_ok", "sum_overflow", "bgbs_ok", "bgbs_overflow", "n=0", "one_sided"]),
-    Test("tally", tally_case, run_tally, quick=1500, thorough=50000, cfgs=_CFG,
+    Test("tally", tally_case, run_tally, quick=1500, thorough=30000, cfgs=_CFG, max_workers=8,
          must_cover=["tally=1", "tally=0", "balanced_by_helper", "completed_blind_sum", "completed_bgbs", "empty_side", "both_empty", "multi_generator",
                      "unbalanced_one_unit_rejected", "raw_parsed", "H_and_minus_H", "long_list", "perturb:drop", "perturb:b+1"]),
-    Test("parse_grid", parse_grid, run_grid, kind="enum", cfgs=_CFG,
+    Test("parse_grid", parse_grid, run_grid, kind="enum", cfgs=_CFG, max_workers=4,
          must_cover=["on_curve", "off_curve", "x>=p", "x_plus_p", "sign_pinned", "boundary"]),
 ]
